@@ -1,13 +1,12 @@
 #!/bin/bash
 # usage: tools/try_mutant.sh <patch> <prop> [tier]  -- applies the patch to /repo, runs the check, reverts
 P="$1"; PROP="$2"; TIER="${3:-quick}"
-cd /repo && git apply "$P" || { echo "PATCH DOES NOT APPLY"; exit 9; }
+cd /repo && { git apply "$P" 2>/dev/null || patch -p1 --fuzz=3 -s < "$P" || { echo "PATCH DOES NOT APPLY"; git checkout -- .; exit 9; }; }
 cd /verif && tools/check.sh "$PROP" "$TIER" 2>&1 | cut -c1-400 | tail -6
-echo "exit=$?"
 python3 - "$PROP" <<'PY'
 import json,sys
 e=json.load(open(f"/verif/evidence/{sys.argv[1]}.json"))
 c=e["coverage"]
 print("  divergences:",c["divergences"],"other:",c["other_property_verdicts"])
 PY
-cd /repo && git checkout -- . 
+cd /repo && git reset -q HEAD -- . && git checkout -- . && git clean -fdq -- src tests 2>/dev/null; git status --short | head -3
